@@ -226,14 +226,14 @@ class Transform:
 
     def to_bytes(self):
         data = bytearray(pack('>BBH', self.type, 0, self.id))
-        if self.keylen:
+        if self.keylen is not None:
             data += pack('>HH', (14 | 0x8000), self.keylen)
         return data
 
     def to_dict(self):
         result = OrderedDict((('type', self.type.name),
                               ('id', self.id.name)))
-        if self.keylen:
+        if self.keylen is not None:
             result['keylen'] = self.keylen
         return result
 
